@@ -199,10 +199,10 @@ def lift(fn, args, node):
             elems.append(Sc(a.ety, body))
         else:
             elems.append(a)
-    if len(bases) > 4:
-        # too wide for kzip4: materialise the composite arguments first
+    if len(bases) > 5:
+        # too wide for kzip5: materialise the composite arguments first
         if all((not isinstance(a, Vec)) or len(a.bases) == 1 for a in args):
-            fail(node, "pointwise expression over more than 4 base vectors")
+            fail(node, "pointwise expression over more than 5 base vectors")
         return lift(fn, [rebase(a) if isinstance(a, Vec) and len(a.bases) > 1 else a for a in args], node)
     out = fn(*elems)
     if isinstance(out, Num):
@@ -215,8 +215,8 @@ def materialise(v: Vec) -> str:
     if len(v.bases) == 1 and v.body == f"{PH}0{PH}":
         return v.bases[0][0]
     n = len(v.bases)
-    if n > 4:
-        raise TranslateError("pointwise expression over more than 4 base vectors")
+    if n > 5:
+        raise TranslateError("pointwise expression over more than 5 base vectors")
     names = [f"e{i}__" for i in range(n)]
     body = v.body
     for i, nm in enumerate(names):
@@ -374,6 +374,10 @@ class Executor:
                 d = {"R": CFG["zero"], "Z": "0%Z", "B": "false"}[v.ety]
                 return Sc(v.ety, f"(nth {s.value} {materialise(v)} {d})")
             fail(n, "unsupported subscript")
+        if isinstance(n, ast.Dict):
+            if not all(isinstance(k, ast.Constant) and isinstance(k.value, str) for k in n.keys):
+                fail(n, "dict with non-literal keys")
+            return {k.value: self.expr(v, sc) for k, v in zip(n.keys, n.values)}
         if isinstance(n, ast.Lambda):
             return Closure(n, sc)
         if isinstance(n, ast.Call):
@@ -394,6 +398,13 @@ class Executor:
         """jnp.where / lax.select / lax.cond on values (componentwise on tuples and objects)"""
         if isinstance(a, tuple) and isinstance(b, tuple) and len(a) == len(b):
             return tuple(self.select(c, x, y, n) for x, y in zip(a, b))
+        # an object that also stands for an opaque value (e.g. a policy with callable methods) takes part in a select as that value
+        # (the result keeps the object's methods: they are oracles that do not depend on which value is selected)
+        for x, y in ((a, b), (b, a)):
+            if isinstance(x, Obj) and "@name" in x.fields and isinstance(y, Sc):
+                a2 = a.fields["@name"] if a is x else a
+                b2 = b.fields["@name"] if b is x else b
+                return Obj({**x.fields, "@name": self.select(c, a2, b2, n)}, x.name)
         if isinstance(a, Obj) and isinstance(b, Obj) and set(a.fields) == set(b.fields):
             return Obj({k: self.select(c, a.fields[k], b.fields[k], n) for k in a.fields}, a.name)
 
@@ -764,6 +775,9 @@ def _p_split(ex, n, args, kwargs):
         fail(n, "split of a non-key")
     cnt = 2
     if len(args) == 2:
+        if isinstance(args[1], Sc) and args[1].ty == "Z":
+            # a symbolic number of keys: the vector jr.split(key, n) as the list of key paths split_keys k n
+            return Vec.base(f"(split_keys {k.t} (Z.to_nat {args[1].t}))", "K")
         if not (isinstance(args[1], Num) and args[1].q.denominator == 1):
             fail(n, "split count must be a literal")
         cnt = int(args[1].q)
@@ -791,6 +805,18 @@ def _p_vmap(ex, n, args, kwargs):
     f = args[0]
     if isinstance(f, Prim):
         return f
+    if isinstance(f, Closure):
+        def mapped(ex2, n2, a2, k2):
+            if k2 or not a2 or not all(isinstance(v, Vec) for v in a2):
+                fail(n2, "vmapped call form")
+
+            def one(*els):
+                out = ex2.invoke(f, list(els), {}, n2)
+                if not isinstance(out, (Sc, Num)):
+                    fail(n2, "vmapped function must return a scalar")
+                return out
+            return lift(one, list(a2), n2)
+        return Prim(mapped)
     fail(n, "vmap of an unsupported function")
 
 
@@ -829,7 +855,7 @@ BUILTIN_PRIMS = {
     "jnp.broadcast_to": Prim(lambda ex, n, a, k: a[0] if len(a) == 2 and not k else fail(n, "broadcast_to form")),
     "jnp.isinf": Prim(lambda ex, n, a, k: Sc("B", "false") if len(a) == 1 and is_scalar(a[0]) else fail(n, "isinf of a non-scalar")),
     "jnp.all": Prim(lambda ex, n, a, k: a[0]),
-    "jnp.pi": Sc("R", "PI"), "float": Static("float"), "int": Static("int"), "bool": Static("bool"),
+    "jnp.nan": Static("nan"), "jnp.pi": Sc("R", "PI"), "float": Static("float"), "int": Static("int"), "bool": Static("bool"),
 }
 
 
